@@ -202,7 +202,16 @@ class Env:
         self.a_s = Array(np.array([3.0, 4.0]), "s", "time")
         self.fs_m = FractionScalar("length", FractionValue(5, (1, 2)), "m")
         self.fs_s = FractionScalar("time", FractionValue(2, (1, 4)), "s")
-        self.members = [self.s_m, self.s_cm, self.s_s, self.s_m2, self.s_mps, self.a_m, self.a_s, self.fs_m, self.fs_s]
+        # a derived quantity holding two units of ONE quantity type under two categories (only creatable
+        # directly; arithmetic unifies the units) and a compatible partner for it
+        from collections import OrderedDict
+
+        from barril.units import Quantity
+
+        self.s_mix = Scalar(Quantity.CreateDerived(OrderedDict([("length", ["m", 1]), ("depth", ["cm", 1])])), 2.0)
+        self.s_md = self.s_m * Scalar(1.0, "m", "depth")
+        self.a_mix = Array(self.s_mix.GetQuantity(), np.array([2.0, 4.0]))
+        self.members = [self.s_m, self.s_cm, self.s_s, self.s_m2, self.s_mps, self.a_m, self.a_s, self.fs_m, self.fs_s, self.s_mix, self.s_md, self.a_mix]
 
     def snapshot(self):
         return tuple(c13.snap(o) for o in self.members)
@@ -222,6 +231,8 @@ VALID = [
     ("a_m.GetValues('km')", lambda e: e.a_m.GetValues("km")),
     ("s_m.IsValid()", lambda e: e.s_m.IsValid()),
     ("s_m.CreateCopy(unit='km')", lambda e: e.s_m.CreateCopy(unit="km")),
+    ("s_mix+s_md", lambda e: e.s_mix + e.s_md),
+    ("s_md-s_mix", lambda e: e.s_md - e.s_mix),
 ]
 INVALID = [
     ("Scalar(1,'s','length')", lambda e: Scalar(1.0, "s", "length")),
@@ -244,6 +255,10 @@ INVALID = [
     ("s_mps<s_m", lambda e: e.s_mps < e.s_m),
     ("fs_m<fs_s", lambda e: e.fs_m < e.fs_s),
     ("fs_m.GetValue('s')", lambda e: e.fs_m.GetValue("s")),
+    ("s_mix-s_s", lambda e: e.s_mix - e.s_s),
+    ("s_mix+s_m", lambda e: e.s_mix + e.s_m),
+    ("a_mix+a_s", lambda e: e.a_mix + e.a_s),
+    ("s_mix<s_s", lambda e: e.s_mix < e.s_s),
 ]
 HOPS = VALID + INVALID
 N_VALID = len(VALID)
